@@ -393,3 +393,33 @@ def edge_near_threshold(rnd, t, tries=30000):
         if 0.975 * t <= r < t:
             return tuple(c), bg
     return near_threshold(rnd, t, (0.0, 0.025))
+
+
+def _scan_hairline(job):
+    """(text, bg, large, vr, mode) -> the job if the returned colour's ratio lands within 0.005 below (or 0.002 above)
+    a label threshold; used only to SELECT inputs - the verdict on them is TLC's"""
+    vlib.use_repo()
+    from cm_colors import ColorPair
+    t, b, large, vr, mode = job
+    try:
+        val, ok = ColorPair(t, b, large).make_readable(mode=mode, very_readable=vr)
+    except Exception:
+        return None
+    if not is_rgb_ints(val) or tuple(val) == tuple(t):
+        return None
+    r = refs.wcag_ratio(val, b)
+    for th in ((3.0, 4.5) if large else (4.5, 7.0)):
+        if th - 0.005 <= r < th + 0.002:
+            return job
+    return None
+
+
+def hairline_results(rnd, nscan):
+    """pairs (as tuples) whose TUNED colour lands on the hairline of a threshold"""
+    jobs = []
+    for k in range(nscan):
+        large = bool(k & 1)
+        vr = bool(k & 2)
+        t, b = near_threshold(rnd, rnd.choice((3.0, 4.5, 7.0)), (0.02, 0.35))
+        jobs.append((t, b, large, vr, 0 if k % 3 else 1))
+    return [j for j in vlib.pool_map(_scan_hairline, jobs, chunksize=16) if j]
